@@ -106,6 +106,7 @@ Payload ==
   THEN LET t == TY(st.tn)  renv == ResEnv(st.tn, st.q)
            e2 == Enc2(t.res, st.r, TRUE) IN
        [kind |-> "fn", tn |-> st.tn, hastl2 |-> t.tl2, negzero |-> HasNegZero(t.res, st.r),
+        small |-> SmallElems(t.res, renv, st.r),
         req |-> Bytes(Enc1(st.tn, NoEnv, st.q, FALSE)),
         res1 |-> Bytes(Enc1(t.res, renv, st.r, t.resBare)),
         res2 |-> IF ~t.tl2 THEN <<>>
